@@ -88,7 +88,14 @@ static std::string dims_beg(const std::vector<BR>& v) {
     return s;
 }
 
+static std::string current_scenario;
+static void runaway() { printf("RUNAWAY %s\n", current_scenario.c_str()); fflush(stdout); }
 static void record_chunk(const std::vector<BR>& v) {
+    if (chunks.size() > 3000000) {   // a loop that never ends (e.g. an indivisible range that keeps being split)
+        printf("RUNAWAY %s\n", current_scenario.c_str());
+        fflush(stdout);
+        _Exit(4);
+    }
     std::vector<std::pair<size_t, size_t>> c;
     bool empty = false, oob = false;
     for (size_t i = 0; i < v.size(); ++i) {
@@ -169,6 +176,7 @@ struct Scenario {
         if (cur) static_cast<TaskLog*>(cur->user)->cancels.push_back(a ? 1 : 0);
     }
     static void run(const std::vector<Dim>& d) {
+        mock::g.on_runaway = runaway;
         mock::g.on_start = on_start; mock::g.on_end = on_end; mock::g.on_spawn = on_spawn;
         mock::g.after_callout = after_callout; mock::g.on_cancel_read = on_cancel_read;
         Range r = Dims<Range>::make(d);
@@ -190,6 +198,7 @@ template <typename Range> static bool run_kind(const std::string& kind, const st
 int main() {
     std::string line;
     while (std::getline(std::cin, line)) {
+        current_scenario = line;
         std::istringstream in(line);
         std::string op, kind, fl;
         unsigned k = 0;
